@@ -243,7 +243,7 @@ def run(ctx):
     rng = ctx.rng("c09")
     ncase = 150 if ctx.quick else 10000
     units = ["main:rdd2", "main:rdd2_loglinear", "main:bezier", "algorithms:mrp", "algorithms:sim", "codegen:mrp", "codegen:sim", "codegen:mr_ref_traj",
-             "direct:rdd2", "direct:rdd2_loglinear", "direct:bezier", "sequence:all"] + ["options:%d" % i for i in range(5)]
+             "direct:rdd2", "direct:rdd2_loglinear", "direct:bezier", "sequence:all", "shareddir:all"] + ["options:%d" % i for i in range(5)]
     for i, u in enumerate(units):
         if i % ctx.nshards != ctx.shard:
             continue
@@ -316,6 +316,8 @@ def unit(ctx, u, d, rng, ncase):
         option_sweep(ctx, int(name), d, rng, codegen, mods)
     elif kind == "sequence":
         call_sequences(ctx, d, codegen, algorithms, mods)
+    elif kind == "shareddir":
+        shared_directory(ctx, d, codegen, algorithms, mods, mr_ref_traj)
 
 
 def option_sweep(ctx, part, d, rng, codegen, mods):
@@ -464,6 +466,77 @@ def call_sequences(ctx, d, codegen, algorithms, mods):
         shutil.rmtree(d1, ignore_errors=True)
         shutil.rmtree(d2, ignore_errors=True)
     ctx.count("generator_call_histories", len(gens))
+
+
+def _defined(path, name):
+    try:
+        return len(re.findall(r"\bint\s+%s\s*\(\s*const\s+casadi_real\s*\*\*" % re.escape(name), open(path).read())) == 1
+    except OSError:
+        return False
+
+
+def shared_directory(ctx, d, codegen, algorithms, mods, mr_ref_traj):
+    """the way a build system uses the generators: every shipped set generated into ONE destination directory, in
+    several orders, then all files must be there with all their functions; and destinations given as relative paths"""
+    with quiet():
+        eqs = algorithms.eqs()
+    sets = {"rdd2.c": ("models", "rdd2"), "rdd2_loglinear.c": ("models", "rdd2_loglinear"), "bezier.c": ("models", "bezier"),
+            "casadi_mrp.c": ("algorithms", None), "mrp.c": ("codegen", None)}
+    orders = [["rdd2_loglinear.c", "rdd2.c", "bezier.c", "casadi_mrp.c", "mrp.c"], ["mrp.c", "casadi_mrp.c", "bezier.c", "rdd2.c", "rdd2_loglinear.c"],
+              ["bezier.c", "rdd2.c", "mrp.c", "rdd2_loglinear.c", "casadi_mrp.c"]]
+    env = dict(os.environ)
+    env["PYTHONPATH"] = core.REPO + os.pathsep + env.get("PYTHONPATH", "")
+    env["MPLBACKEND"] = "Agg"
+    for oi, order in enumerate(orders):
+        dd = os.path.join(d, "shared%d" % oi)
+        os.makedirs(dd, exist_ok=True)
+        for f in order:
+            kind, name = sets[f]
+            if kind == "models":
+                if oi == 2:  # through the command line entry point
+                    subprocess.run([sys.executable, "-m", "cyecca.models." + name, dd], capture_output=True, text=True, timeout=900, env=env, cwd=dd)
+                else:
+                    funcs = {k: v for k, v in module_functions(mods[name]).items() if k in PINNED[f]}
+                    with quiet():
+                        lib_call(ctx, "generate_code", "cyecca.models.%s" % name, lambda: mods[name].generate_code(funcs, filename=f, dest_dir=dd), not_implemented_ok=False)
+            elif kind == "algorithms":
+                with quiet():
+                    lib_call(ctx, "generate_code", "algorithms", lambda: algorithms.generate_code(dict(eqs), dd), not_implemented_ok=False)
+            else:
+                with quiet():
+                    lib_call(ctx, "generate_code", "cyecca.codegen", lambda: codegen.generate_code({"mrp": eqs["mrp"], "sim": eqs["sim"], "mr_ref_traj": mr_ref_traj.derive_mr_ref_traj()}, dd), not_implemented_ok=False)
+        have = sorted(os.listdir(dd))
+        expect = ["rdd2.c", "rdd2_loglinear.c", "bezier.c", "casadi_mrp.c", "casadi_sim.c", "mrp.c", "sim.c", "mr_ref_traj.c"]
+        missing = [f for f in expect if f not in have]
+        incomplete = [(f, n) for f in expect if f in have for n in PINNED[f] if not _defined(os.path.join(dd, f), n)]
+        ctx.check("all_sets_survive_in_a_shared_directory", "order%d" % oi, not missing and not incomplete,
+                  {"generation_order": order, "missing_files": missing, "missing_functions": incomplete[:6], "directory": have})
+        shutil.rmtree(dd, ignore_errors=True)
+    # relative destination paths (cwd = a scratch directory)
+    cwd = os.getcwd()
+    base = os.path.join(d, "relcwd")
+    os.makedirs(base, exist_ok=True)
+    small = {"b3": None}
+    try:
+        os.chdir(base)
+        with quiet():
+            from cyecca.models import bezier
+            b3 = bezier.derive_bezier3()
+            lib_call(ctx, "generate_code", "algorithms", lambda: algorithms.generate_code(dict(eqs), "out_alg"), not_implemented_ok=False)
+            lib_call(ctx, "generate_code", "cyecca.codegen", lambda: codegen.generate_code({"mrp": eqs["mrp"], "sim": eqs["sim"]}, "out_gen"), not_implemented_ok=False)
+            for mname, mod in mods.items():
+                lib_call(ctx, "generate_code", "cyecca.models.%s" % mname, lambda: mod.generate_code(b3, filename="x.c", dest_dir="out_" + mname), not_implemented_ok=False)
+    finally:
+        os.chdir(cwd)
+    want = {"out_alg": ["casadi_mrp.c", "casadi_sim.c"], "out_gen": ["mrp.c", "sim.c"]}
+    for mname in mods:
+        want["out_" + mname] = ["x.c"]
+    for sub_, files in want.items():
+        have = sorted(os.listdir(os.path.join(base, sub_))) if os.path.isdir(os.path.join(base, sub_)) else []
+        ctx.check("relative_destination_directory", sub_, all(f in have for f in files), {"dest_dir": sub_, "expected": files, "found": have,
+                                                                                          "cwd_listing": sorted(os.listdir(base))})
+    ctx.check("working_directory_restored", "generators", os.getcwd() == cwd, {"cwd": os.getcwd(), "expected": cwd})
+    shutil.rmtree(base, ignore_errors=True)
 
 
 def finalize(m, tier):
